@@ -357,13 +357,14 @@ Proof.
   rewrite (IH _ _ H Hc). apply orb_true_r.
 Qed.
 
-Lemma remove_all_fuel_id : forall c f p s, has_char c p = true -> has_char c s = false -> remove_all_fuel f p s = s.
+Lemma remove_lead_fuel_id : forall c f ok p s, has_char c p = true -> has_char c s = false -> remove_lead_fuel f ok p s = s.
 Proof.
-  intros c f; induction f as [|f IH]; intros p s Hp Hs; cbn; [reflexivity|].
+  intros c f; induction f as [|f IH]; intros ok p s Hp Hs; cbn; [reflexivity|].
   destruct s as [|d r]; [reflexivity|].
-  destruct (strip_prefix p (String d r)) as [rest|] eqn:Hsp.
-  - rewrite (strip_prefix_has_char c _ _ _ Hsp Hp) in Hs; discriminate.
-  - cbn in Hs; apply orb_false_iff in Hs; destruct Hs as [_ Hs]. rewrite (IH p r Hp Hs). reflexivity.
+  assert (Hn : (if ok then strip_prefix p (String d r) else None) = None).
+  { destruct ok; [|reflexivity]. destruct (strip_prefix p (String d r)) as [rest|] eqn:Hsp; [|reflexivity].
+    rewrite (strip_prefix_has_char c _ _ _ Hsp Hp) in Hs; discriminate. }
+  rewrite Hn. cbn in Hs; apply orb_false_iff in Hs; destruct Hs as [_ Hs]. rewrite (IH _ p r Hp Hs). reflexivity.
 Qed.
 
 Lemma has_char_app_r : forall c a b, has_char c b = true -> has_char c (a +++ b) = true.
@@ -372,12 +373,12 @@ Proof.
   unfold sapp in IH. rewrite IH; apply orb_true_r.
 Qed.
 
-Lemma remove_all_id : forall m s, has_char dot s = false -> remove_all (m +++ "."%string) s = s.
+Lemma remove_lead_id : forall m s, has_char dot s = false -> remove_lead (m +++ "."%string) s = s.
 Proof.
-  intros m s Hs. unfold remove_all.
+  intros m s Hs. unfold remove_lead.
   assert (Hp : has_char dot (m +++ "."%string) = true) by (apply has_char_app_r; reflexivity).
   destruct (m +++ "."%string) eqn:Hm; [cbn in Hp; discriminate|]. rewrite <- Hm.
-  apply (remove_all_fuel_id dot); [rewrite Hm; exact Hp | exact Hs].
+  apply (remove_lead_fuel_id dot); [rewrite Hm; exact Hp | exact Hs].
 Qed.
 
 Lemma mkref_denotes : forall E c u var n m nm,
